@@ -2,6 +2,7 @@ package pdfw
 
 import (
 	"fmt"
+	"sort"
 
 	"golang.org/x/text/unicode/norm"
 	"pgregory.net/rapid"
@@ -39,11 +40,11 @@ var repertoire = map[string][]MapEnt{
 // EncodingOf returns the base encoding name of a simple font kind.
 func EncodingOf(kind string) string {
 	switch kind {
-	case "t1std":
+	case "t1std", "t1dstd":
 		return "StandardEncoding"
-	case "t1win", "ttwin", "ttembed":
+	case "t1win", "ttwin", "ttembed", "t1dwin":
 		return "WinAnsiEncoding"
-	case "t1mac", "ttmac":
+	case "t1mac", "ttmac", "t1dmac":
 		return "MacRomanEncoding"
 	}
 	return ""
@@ -63,9 +64,12 @@ func GenFonts(t *rapid.T) []FontSpec {
 	n := rapid.IntRange(1, 3).Draw(t, "nFonts")
 	var fonts []FontSpec
 	for i := 0; i < n; i++ {
-		kind := rapid.SampledFrom([]string{"t1std", "t1win", "t1mac", "ttwin", "ttmac", "ttembed", "tu1", "type0"}).Draw(t, "fontKind")
+		kind := rapid.SampledFrom([]string{"t1std", "t1win", "t1mac", "ttwin", "ttmac", "ttembed", "tu1", "type0", "t1dstd", "t1dwin", "t1dmac"}).Draw(t, "fontKind")
 		f := FontSpec{Res: fmt.Sprintf("F%d", i+1), Kind: kind}
 		switch kind {
+		case "t1dstd", "t1dwin", "t1dmac":
+			f.Base = rapid.SampledFrom(stdBases).Draw(t, "base")
+			f.Diff = genDiff(t)
 		case "t1std", "t1win", "t1mac":
 			f.Base = rapid.SampledFrom(stdBases).Draw(t, "base")
 		case "ttwin", "ttmac", "ttembed":
@@ -84,6 +88,55 @@ func GenFonts(t *rapid.T) []FontSpec {
 		fonts = append(fonts, f)
 	}
 	return fonts
+}
+
+// glyph names of the Adobe Glyph List with their one-to-one Unicode values
+var diffGlyphs = []DiffEnt{{0, "Euro", "€"}, {0, "eacute", "é"}, {0, "adieresis", "ä"}, {0, "ntilde", "ñ"}, {0, "bullet", "•"},
+	{0, "quotesingle", "'"}, {0, "grave", "`"}, {0, "endash", "–"}, {0, "emdash", "—"}, {0, "Agrave", "À"}, {0, "ccedilla", "ç"},
+	{0, "section", "§"}, {0, "copyright", "©"}, {0, "germandbls", "ß"}, {0, "oe", "œ"}, {0, "AE", "Æ"}, {0, "quoteright", "’"},
+	{0, "quotedblleft", "“"}, {0, "Zcaron", "Ž"}, {0, "yen", "¥"}}
+
+// codes a /Differences array may re-assign here: not the letters and digits of the line markers
+var diffCodes = []int{0x27, 0x60, 0x7E, 0x5E, 0x80, 0x85, 0x8E, 0x91, 0x96, 0xA1, 0xA7, 0xA9, 0xAA, 0xB1, 0xC4, 0xD0, 0xDF, 0xE1, 0xE9, 0xF1, 0xFA, 0xFC}
+
+// genDiff draws 0-6 re-assigned codes (none: the dictionary only selects the base encoding).
+func genDiff(t *rapid.T) []DiffEnt {
+	n := rapid.IntRange(0, 6).Draw(t, "nDiff")
+	seen := map[int]bool{}
+	var d []DiffEnt
+	for len(d) < n {
+		c := rapid.SampledFrom(diffCodes).Draw(t, "diffCode")
+		if seen[c] {
+			continue
+		}
+		seen[c] = true
+		g := rapid.SampledFrom(diffGlyphs).Draw(t, "diffGlyph")
+		d = append(d, DiffEnt{c, g.Glyph, g.Text})
+	}
+	sort.Slice(d, func(i, j int) bool { return d[i].Code < d[j].Code })
+	return d
+}
+
+// Repertoire returns the codes a line in this font is drawn from, with the text each stands for.
+func Repertoire(f FontSpec) []MapEnt {
+	base := repertoire[EncodingOf(f.Kind)]
+	if len(f.Diff) == 0 {
+		return base
+	}
+	over := map[int]string{}
+	for _, d := range f.Diff {
+		over[d.Code] = d.Text
+	}
+	var rep []MapEnt
+	for _, e := range base {
+		if _, ok := over[e.Code]; !ok {
+			rep = append(rep, e)
+		}
+	}
+	for _, d := range f.Diff {
+		rep = append(rep, MapEnt{d.Code, d.Text}, MapEnt{d.Code, d.Text}) // twice: drawn more often
+	}
+	return rep
 }
 
 func genMap(t *rapid.T, width int) []MapEnt {
@@ -132,7 +185,7 @@ func GenLine(t *rapid.T, fonts []FontSpec, fi int, marker string) (bytes []byte,
 			text += e.Text
 		}
 	default:
-		rep := repertoire[EncodingOf(f.Kind)]
+		rep := Repertoire(f)
 		// the marker (ASCII letters/digits: identical in all three encodings) makes the line unique
 		for _, c := range []byte(marker) {
 			bytes = append(bytes, c)
@@ -249,6 +302,7 @@ func GenLayout(t *rapid.T, nRev int) Layout {
 	l.FilterArray1 = b("filterArray1")
 	l.ResIndirect = b("resIndirect")
 	l.FontDictInd = b("fontDictInd")
+	l.CIDInfoInd = b("cidInfoInd")
 	l.ToUniFlate = b("toUniFlate")
 	l.ReuseFreed = b("reuseFreed")
 	l.FreeDeleted = b("freeDeleted")
